@@ -1076,6 +1076,11 @@ def call_builtin(I, fr, name, args, kwargs, node):
         return AV(kind=K_LIST, note="enumerate", elem=e, alg=dict(a0.alg), tags=a0.tags, indef=a0.indef,
                   shape=(a0.length(),) if a0.length() is not None else None)
     if name == "zip":
+        if args and all(a.kind in (K_TUPLE, K_LIST) and a.items is not None and a.note != "range" for a in args) and \
+                len({len(a.items) for a in args}) == 1 and len(args[0].items) <= 8:
+            # sequences known item by item: the pairs are known one by one too
+            return AV(kind=K_LIST, items=tuple(AV(kind=K_TUPLE, items=tuple(a.items[k] for a in args)) for k in range(len(args[0].items))),
+                      tags=tags_of(*args), indef=indef_of(*args), origin=fresh_tok(I, fr, node))
         els = tuple(I.iter_elem(a, fr, node)[0] for a in args)
         return AV(kind=K_LIST, elem=AV(kind=K_TUPLE, items=els), alg=alg_lub_many(list(args)) if args else {},
                   tags=tags_of(*args), indef=indef_of(*args))
@@ -1107,6 +1112,11 @@ def call_builtin(I, fr, name, args, kwargs, node):
                   tags=tags_of(*args))
     if name in ("id", "type"):
         return AV(kind=K_TOP)
+    if name == "map" and len(args) >= 2 and all(a.kind in (K_TUPLE, K_LIST) and a.items is not None for a in args[1:]) and \
+            len({len(a.items) for a in args[1:]}) == 1 and len(args[1].items) <= 8:
+        # map over sequences whose items are known one by one: the function applied item by item (consumed as a list)
+        outs = [I.call(fr, args[0], [a.items[k] for a in args[1:]], {}, node) for k in range(len(args[1].items))]
+        return AV(kind=K_LIST, items=tuple(outs), origin=fresh_tok(I, fr, node), tags=tags_of(*outs))
     if name in ("divmod", "pow", "map", "filter"):
         return I.unmodelled(fr, node, "builtin " + name)
     if name[0].isupper():  # exception constructors, NotImplemented(...)
@@ -1246,7 +1256,10 @@ def call_method(I, fr, name, base, args, kwargs, node):
 
                 def upd(a, v=v, keep=keep, accname=accname):
                     n = I.elem_join(a, v, None)
-                    return n.replace(mono=frozenset([0]) if keep else frozenset(), note=("accof:" + accname) if keep else None)
+                    # a list known item by item stays known item by item while it is short (a join with a state where it has another
+                    # length forgets the items: loops that are not unrolled end up with the element summary only)
+                    its = a.items + (v,) if (a.items is not None and len(a.items) < 8 and a.kind == K_LIST) else None
+                    return n.replace(mono=frozenset([0]) if keep else frozenset(), note=("accof:" + accname) if keep else None, items=its)
                 I.mutate(fr, base, node, "list.append", upd, value=v)
                 fr.state.facts = frozenset(f for f in fr.state.facts if not (f[0] == "reset" and f[1] == accname)) | \
                     frozenset([("appended",)])
@@ -2820,6 +2833,51 @@ def _tile(C):
     v = C.num(0)
     return AV(kind=K_ARRAY, dtype=v.dtype, shape=None if v.shape is None else tuple(None for _ in v.shape), alg=dict(v.alg), sign=v.sign,
               origin=C.fresh(), tags=tags_of(*[a for a in C.args]), indef=v.indef)
+
+
+@lib("functools.partial", doc="callable with leading positional and keyword arguments fixed")
+def _partial(C):
+    if not C.args:
+        return C.top("partial without a callable")
+    f, pre, kw = C.args[0], list(C.args[1:]), dict(C.kwargs)
+    return AV(kind=K_FUNC, ref=("closure", lambda I2, fr, args, kwargs, node: I2.call(fr, f, pre + list(args), dict(kw, **kwargs), node)))
+
+
+@lib("functools.reduce", doc="left fold of a two-argument callable over a sequence whose items are known one by one")
+def _reduce(C):
+    f, seq, init = C.arg(0), C.arg(1), C.arg(2, "initial")
+    if f is None or seq is None or seq.kind not in (K_TUPLE, K_LIST) or seq.items is None or len(seq.items) > 8:
+        return C.top("reduce over a sequence that is not known item by item")
+    items = list(seq.items)
+    if init is not None:
+        acc = init
+    elif items:
+        acc, items = items[0], items[1:]
+    else:
+        return C.top("reduce of an empty sequence without initial value")
+    for x in items:
+        acc = C.I.call(C.fr, f, [acc, x], {}, C.node)
+    return acc
+
+
+def _operator_row(opcls, inplace=False):
+    def h(C):
+        if len(C.args) != 2:
+            return C.top("operator function with %d arguments" % len(C.args))
+        res = binop(C.I, C.fr, opcls(), as_num(C.args[0]), as_num(C.args[1]), C.node)
+        tgt = C.args[0]
+        if inplace and tgt.kind in (K_ARRAY, K_LIST):          # operator.iadd(a, b) is a += b: the first operand's storage is written
+            keep = res.replace(origin=tgt.origin)
+            C.I.mutate(C.fr, tgt, C.node, "augassign", lambda a, keep=keep: keep, strong=True, value=res)
+            return keep
+        return res
+    return h
+
+
+for _n, _o in (("add", ast.Add), ("iadd", ast.Add), ("sub", ast.Sub), ("isub", ast.Sub), ("mul", ast.Mult), ("imul", ast.Mult),
+               ("truediv", ast.Div), ("itruediv", ast.Div), ("pow", ast.Pow), ("floordiv", ast.FloorDiv), ("mod", ast.Mod)):
+    LIB["operator." + _n] = _operator_row(_o, inplace=_n.startswith("i") and _n not in ("is_",))
+    LIB_DOC["operator." + _n] = "the arithmetic operator as a function (the in-place forms on fresh values)"
 
 
 @lib("operator.attrgetter", doc="callable reading one named attribute of its argument")
